@@ -14,7 +14,9 @@ SPECIAL = ["polish", "Polish", "Alpha", "ALPHA", "正確", "4", "42", "ű", "Ű"
            # combining marks, characters outside the BMP, ligatures, an emoji sequence
            "ıa", "Ia", "ſa", "Sa", "ǆa", "ǅa", "Ǆa", "ǳ", "ǲ", "e\u0301a", "E\u0301a", "\u0301a", "𝓍y", "𝒳y", "ﬁne", "ŉa", "👨\u200d👩\u200d👧x", "ǰ", "ᾳ", "ᾼ",
            # words beyond what the token index can carry (MakeIndices must refuse, Generate must not care)
-           "w" * 300, "é" * 256]
+           "w" * 300, "é" * 256,
+           # entries made of blanks only, and a byte-order mark glued to a word (what a carelessly read word file contains)
+           " ", "\u00a0", "\t", "\ufeffalpha", "\ufeff"]
 
 LISTS_FIXED = [
     ["one", "two", "three"],
@@ -31,6 +33,8 @@ LISTS_FIXED = [
     ["Jean-luc", "Jean-Luc"],
     ["New york", "New York", "new york"],
     ["4", "5", "6", "7", "8"],
+    ["\ufeffalpha", "alpha", "beta"],                                         # a BOM glued to the first entry: a word like any other
+    [" ", "a", "\u00a0", "b"],                                               # blank-only entries are words too
 ]
 
 
@@ -108,6 +112,11 @@ def wlgen_line(l, length, sep, cap, budget, words=None, chunks=None, emit=None, 
         st = "both %s %s" % (core.hx(shadow), st)
     return "wlgen %s%s %d %s %s %d %d %d %s" % (pre, words_tokens(l), length, st, core.hx(cap), budget[0], budget[1], budget[2],
                                                core.src_tokens(src))
+
+
+def case_line(c):
+    """the harness line of a generated case, with its chunking and second separator field if it has them"""
+    return wlgen_line(c["list"], c["length"], c["sep"], c["cap"], c["budget"], c.get("words"), chunks=c.get("chunks"), shadow=c.get("shadow"))
 
 
 def draws_for_sep(rng, sep, boundary=None, fail_attempts=0):
@@ -303,8 +312,22 @@ def gen_cases(ctx, n, with_empty_word=False):
             kinds = ["sepfail"] + kinds[:1]
         # both separator fields set: SeparatorFunc, when non-nil, is the one used ("If nil just use SeperatorChar")
         shadow = rng.choice(["+", "-", "é", " "]) if sep[0] != "char" and rng.random() < 0.15 else None
+        if rng.random() < 0.12:
+            kinds = kinds + ["chunked"]
         for kind in kinds:
-            if kind == "starve":
+            chunks = None
+            if kind == "chunked":
+                # the same bytes delivered 1-3 per read (a legal io.Reader): every draw still uses whole 32-bit words
+                words = make_tape(rng, size, length, sep, cap, "exact", budget) + [rng.randrange(W) for _ in range(4)]
+                data = b"".join(int(w).to_bytes(4, "big") for w in words)
+                pat = rng.choice([(1,), (3, 1), (2,), (1, 2, 1), (3,)])
+                chunks, i, k = [], 0, 0
+                while i < len(data):
+                    m = pat[k % len(pat)]
+                    chunks.append((data[i:i + m], False))
+                    i += m
+                    k += 1
+            elif kind == "starve":
                 # the source dries up part-way through the generation (after at least one draw): a panic, and nothing else
                 full = make_tape(rng, size, length, sep, cap, "exact", budget)
                 words = full[:rng.randrange(1, max(2, len(full)))]
@@ -313,6 +336,8 @@ def gen_cases(ctx, n, with_empty_word=False):
             cases.append({"list": l, "length": length, "sep": sep, "cap": cap, "budget": budget, "words": words,
                           "meta": {"list": l if isinstance(l, str) else l[:12], "length": length, "sep": sep_json(sep), "cap": cap, "budget": budget,
                                    "tape_kind": kind}})
+            if chunks is not None:
+                cases[-1]["chunks"] = chunks
             if shadow is not None:
                 cases[-1]["shadow"] = shadow
                 cases[-1]["meta"]["separator_char_also_set"] = shadow
